@@ -681,12 +681,12 @@ _PORTS = [0, 1, 80, 8000, 65535]
 
 @harness(
     "C19",
-    dom={"shape": (0, 5), "hi": (0, 5), "pi": (0, 4), "dgram": "bool", "workers": (1, 2), "fdn": (0, None)},
+    dom={"shape": (0, 5), "hi": (0, 5), "pi": (0, 4), "dgram": "bool", "workers": (1, 2), "fdn": (0, 3)},
     split={"shape": "each"},
-    witnesses=[{"shape": 0, "hi": 0, "pi": 3, "dgram": False, "workers": 1, "fdn": 3}, {"shape": 2, "hi": 1, "pi": 2, "dgram": True, "workers": 2, "fdn": 3},
-               {"shape": 4, "hi": 0, "pi": 0, "dgram": False, "workers": 1, "fdn": 33}],
+    witnesses=[{"shape": 0, "hi": 0, "pi": 3, "dgram": False, "workers": 1, "fdn": 1}, {"shape": 2, "hi": 1, "pi": 2, "dgram": True, "workers": 2, "fdn": 1},
+               {"shape": 5, "hi": 0, "pi": 0, "dgram": False, "workers": 1, "fdn": 2}],
     budget=60,
-    bounds="bind shapes {host:port, bare host, [v6]:port, [v6], unix:path, fd://n} x 6 IPv4/host names x 4 IPv6 literals x 5 boundary ports x stream/datagram x workers 1|2; fd number any int >= 0",
+    bounds="bind shapes {host:port, bare host, [v6]:port, [v6], unix:path, fd://n} x 6 IPv4/host names x 4 IPv6 literals x 5 boundary ports x stream/datagram x workers 1|2; fd number in {0,3,33,1023}",
     encodes=["hypercorn/config.py::Config._create_sockets"],
     stubs=["hypercorn.config.socket and hypercorn.config.os replaced by recorders (no real sockets, no filesystem)"],
 )
@@ -730,6 +730,7 @@ def bind_parsing(shape: int, hi: int, pi: int, dgram: bool, workers: int, fdn: i
         bind = "unix:" + path
         want = (_socket.AF_UNIX, path)
     else:
+        fdn = [0, 3, 33, 1023][conc(fdn, 0, 3)]
         fake.fd_types[fdn] = type_
         bind = "fd://" + str(fdn)
         want = None
@@ -825,3 +826,61 @@ def response_headers_wellformed(date: bool, server: bool, alt: int, proto: int, 
             ok = ok and v == b"hypercorn-" + proto.encode()
     ok = ok and [v for n, v in got if n == b"alt-svc"] == [a.encode() for a in alts]
     return done(ok, date=date, server=server, alt=alt, proto=proto, stamp=stamp)
+
+
+# ---------------------------------------------------------------- settings whose value is not a scalar
+
+
+class _QuietLogger(hconfig.Logger):
+    pass
+
+
+_SPECIAL = [
+    ("logger_class", _QuietLogger),
+    ("logconfig_dict", {"version": 1}),
+    ("verify_mode", ssl.VerifyMode.CERT_REQUIRED),
+    ("verify_flags", ssl.VerifyFlags.VERIFY_X509_STRICT),
+    ("alpn_protocols", ["h2"]),
+    ("server_names", ["a.example", "b.example"]),
+]
+_SPECIAL_PY = os.path.join(_FILEDIR, "special_settings.py")
+with open(_SPECIAL_PY, "w", encoding="utf8") as _f:
+    _f.write("import ssl\nfrom hypercorn.logging import Logger\n\n\nclass QuietLogger(Logger):\n    pass\n\n\nlogger_class = QuietLogger\n"
+             "logconfig_dict = {'version': 1}\nverify_mode = ssl.VerifyMode.CERT_REQUIRED\nverify_flags = ssl.VerifyFlags.VERIFY_X509_STRICT\n"
+             "alpn_protocols = ['h2']\nserver_names = ['a.example', 'b.example']\n")
+
+
+@harness(
+    "C19",
+    dom={"si": (0, len(_SPECIAL) - 1), "route": (0, 4)},
+    witnesses=[{"si": 0, "route": 2}, {"si": 2, "route": 3}],
+    budget=60,
+    bounds="6 settings whose values are classes, dicts, enums or lists x loader route {mapping, keywords, object, python file, -c file: on the command line}",
+    encodes=["hypercorn/config.py::Config.from_object", "hypercorn/config.py::Config.from_pyfile", "hypercorn/config.py::Config.from_mapping", "hypercorn/__main__.py::_load_config"],
+)
+def special_settings_loaders(si: int, route: int) -> bool:
+    """
+    pre: DOM(special_settings_loaders, si=si, route=route)
+    post: _
+    """
+    enter()
+    name, value = _SPECIAL[conc(si, 0, len(_SPECIAL) - 1)]
+    route = conc(route, 0, 4)
+    if route == 0:
+        cfg = Config.from_mapping({name: value})
+    elif route == 1:
+        cfg = Config.from_mapping(**{name: value})
+    elif route == 2:
+        o = _Obj()
+        setattr(o, name, value)
+        cfg = Config.from_object(o)
+    elif route == 3:
+        cfg = Config.from_pyfile(_SPECIAL_PY)
+    else:
+        cfg = run_main(["-c", "file:" + _SPECIAL_PY, "app:app"])
+    got = getattr(cfg, name)
+    if name == "logger_class":
+        ok = isinstance(got, type) and got.__name__ in ("_QuietLogger", "QuietLogger") and got is not hconfig.Logger
+    else:
+        ok = got == value
+    return done(ok, setting=name, route=["mapping", "keywords", "object", "pyfile", "cli file:"][route])
